@@ -28,7 +28,7 @@
 //	{"op":"call","s":1,"proc":"p1","timeout_ms":0,"hold":false,"ppt":""}
 //	     the callee answers automatically unless "hold":true; then a later
 //	     {"op":"yield","s":2} answers the oldest invocation held by session 2
-//	{"op":"yield","s":2}                        {"op":"cancel","s":1}   (oldest unanswered call of s)
+//	{"op":"yield","s":2}                        {"op":"cancel","s":1,"mode":"kill"}   (oldest unanswered call of s; mode optional)
 //	{"op":"metacall","s":1,"proc":"wamp.session.count"}   (also .list, .get, wamp.registration.list, wamp.subscription.list)
 //	{"op":"kill","s":1,"target":3}             wamp.session.kill
 //	{"op":"leave","s":3}                       GOODBYE
@@ -103,6 +103,7 @@ type Op struct {
 	Q         int    `json:"q,omitempty"`
 	Wrap      bool   `json:"wrap,omitempty"`
 	Ms        int    `json:"ms,omitempty"`
+	Mode      string `json:"mode,omitempty"` // cancel: kill | killnowait | skip (default: none given)
 	Ops       []Op   `json:"ops,omitempty"`
 }
 
@@ -179,6 +180,10 @@ func (o Op) MarshalJSON() ([]byte, error) {
 		}
 	case "metacall":
 		str("proc", o.Proc)
+	case "cancel":
+		if o.Mode != "" {
+			str("mode", o.Mode)
+		}
 	case "kill":
 		num("target", o.Target)
 	case "join", "hello_goodbye":
